@@ -667,7 +667,8 @@ func genC19(t *rapid.T) ccCase {
 			c.Progs[g] = append(p, c.Progs[g][pos:]...)
 		}
 	}
-	if rapid.IntRange(0, 2).Draw(t, "close") == 0 {
+	// Close from one goroutine, or from several at once (Close racing Close)
+	for n := rapid.SampledFrom([]int{0, 0, 1, 2, 3}).Draw(t, "closes"); n > 0; n-- {
 		g := rapid.IntRange(0, len(c.Progs)-1).Draw(t, "closer")
 		pos := rapid.IntRange(0, len(c.Progs[g])).Draw(t, "closePos")
 		p := append([]ccOp{}, c.Progs[g][:pos]...)
@@ -697,7 +698,7 @@ func TestVerifC19(t *testing.T) {
 			}
 			return f
 		},
-		Rule:        "C19: the C01 program generator with the entry pool off and a removal listener installed, on plain, loading and hybrid stores, with SaveCache, Wait, Range, Len, EstimatedSize, Stats, hybrid Get/Delete and (in a third of the cases) a Close sprinkled into the goroutine programs; the binary is built with -race and any 'WARNING: DATA RACE' in its output is the violation; non-trivial = at least two goroutines and at least one of SaveCache / Range / Close / Wait in the programs",
+		Rule:        "C19: the C01 program generator with the entry pool off and a removal listener installed, on plain, loading and hybrid stores, with SaveCache, Wait, Range, Len, EstimatedSize, Stats, hybrid Get/Delete and (in three fifths of the cases) one to three Close calls, possibly from different goroutines, sprinkled into the goroutine programs; the binary is built with -race and any 'WARNING: DATA RACE' in its output is the violation; non-trivial = at least two goroutines and at least one of SaveCache / Range / Close / Wait in the programs",
 		Assumptions: []string{"the race detector only sees the interleavings that are executed", "the harness's own shared state is per-goroutine or atomic/mutex protected"},
 	})
 }
